@@ -264,6 +264,15 @@ def impl_graphset(chk, cfg, jobs):
             g0 = artificial.generate_graphs(base_nodes, ts_max=cfg["T"] / 64, rng=jax.random.PRNGKey(cfg["key"]), num_episodes=cfg["eps"])
             if aug.get("pad"): g0 = pad_like_record(g0)
             if aug.get("squeeze") and cfg["eps"] == 1: g0 = g0[0]
+            if aug.get("trim1") and aug.get("squeeze") and cfg["eps"] == 1:
+                # an existing node that stepped exactly once (e.g. a slow planner in a short record): its arrays have length 1. Only a node without existing
+                # edges is trimmed, so the rest of the existing graph is untouched
+                from rex import base as _rb
+                used = {x for k in g0.edges for x in k}
+                lone = [n for n in g0.vertices if n not in used]
+                if lone:
+                    n1 = lone[0]; v1 = g0.vertices[n1]
+                    g0 = _rb.Graph(vertices={**g0.vertices, n1: _rb.Vertex(seq=v1.seq[:1], ts_start=v1.ts_start[:1], ts_end=v1.ts_end[:1])}, edges=g0.edges)
             nodes = build(cfg, all_nodes, all_conns)
             phases = {i: fr(nodes[f"n{i}"].phase) for i in all_nodes}
             g = artificial.augment_graphs(g0, nodes, rng=jax.random.PRNGKey(cfg["key2"]))
@@ -500,6 +509,10 @@ def gen_cases(chk, n_gen, n_aug, n_off):
         inner = [j for j, c in enumerate(cfg["conns"]) if c["out"] in keep and c["inp"] in keep]
         kc = [j for j in inner if r.random() < 0.6]
         cfg["aug"] = dict(nodes=keep, conns=kc, pad=r.random() < 0.35, squeeze=r.random() < 0.5)
+        cfg["aug"]["trim1"] = cfg["aug"]["squeeze"] and not cfg["aug"]["pad"]
+        if len(cases) == n_gen:
+            # the first augment case of every run: an un-batched existing graph made of a single node that stepped exactly once
+            cfg["eps"] = 1; cfg["aug"] = dict(nodes=keep[:1], conns=[], pad=False, squeeze=True, trim1=True)
         cases.append(cfg)
     for _ in range(n_off): cases.append(gen_offlattice(r))
     return cases
